@@ -1452,6 +1452,12 @@ func (vm *Vm) raise(exc, cause py.Object) error {
 	} else {
 		// raise <instance>
 		// raise <type>
+		switch exc.(type) {
+		case *py.Exception, *py.Type:
+		default:
+			// MakeException would wrap any other object in a SystemError
+			return py.ExceptionNewf(py.TypeError, "exceptions must derive from BaseException")
+		}
 		excException := py.MakeException(exc)
 		if debugging {
 			debugf("raise: excException = %v\n", excException)
